@@ -518,7 +518,12 @@ def write_evidence(prop, tier, seed, level, coverage, violations, assumptions=No
 
 def replay_file(prop, tier, seed, what, payload):
     os.makedirs(WORK + '/replay', exist_ok=True)
-    path = '%s/replay/%s-%s-%d.json' % (WORK, prop, tier, int(time.time()))
+    n = 0
+    while True:
+        path = '%s/replay/%s-%s-%d%s.json' % (WORK, prop, tier, int(time.time()), '-%d' % n if n else '')
+        if not os.path.exists(path):
+            break
+        n += 1
     with open(path, 'w') as fh:
         json.dump(dict(property=prop, tier=tier, seed=seed, what=what, **payload), fh, indent=1)
     return path
@@ -992,6 +997,91 @@ def check_c18(tier, seed):
     return 1 if violations else 0
 
 
+def tla_unquote(line):
+    line = line.strip()
+    out, i = [], 1
+    while i < len(line) - 1:
+        if line[i] == '\\':
+            out.append(line[i + 1]); i += 2
+        else:
+            out.append(line[i]); i += 1
+    return ''.join(out)
+
+
+def check_c14(tier, seed):
+    prop = 'C14'
+    build_harness()
+    quick = tier == 'quick'
+    consts = 'CONSTANT LawLen = 2\nCONSTANT CaseLen = %d\nCHECK_DEADLOCK FALSE\n' % (3 if quick else 4)
+    out, wall = tlc('MCScript.tla', 'SPECIFICATION LawSpec\nINVARIANT Laws\nINVARIANT ValueLaws\n' + consts, 'script-mc',
+                    workers=8, timeout=1800)
+    states, trans = tlc_stats(out)
+    if 'Error:' in out or states == 0:
+        raise ToolError('Script.tla fails its own laws: the specification is wrong\n' + out[-1500:])
+    out, wall = tlc('MCScript.tla', 'SPECIFICATION CaseSpec\nINVARIANT Emit\n' + consts, 'script-cases', workers=1, timeout=3000)
+    if 'Error:' in out:
+        raise ToolError('MCScript case enumeration failed\n' + out[-1500:])
+    d = '%s/c14-%s' % (WORK, tier)
+    shutil.rmtree(d, ignore_errors=True)
+    os.makedirs(d)
+    cases = d + '/cases.ndjson'
+    ncases = 0
+    with open(cases, 'w') as fh:
+        for ln in out.split('\n'):
+            if ln.startswith('"CASE|'):
+                fh.write(tla_unquote(ln)[5:] + '\n')
+                ncases += 1
+    if ncases < 1000:
+        raise ToolError('MCScript produced only %d cases' % ncases)
+    # the template cases once; the value cases several times, walking the pools of boundary values
+    plans = [('tpl', 0, sh_i, 4) for sh_i in range(4)] if not quick else [('tpl', 0, 0, 1)]
+    plans += [('val', off, 0, 1) for off in range(3 if quick else 8)]
+
+    def run(i):
+        kinds, off, shard, shards = plans[i]
+        f = '%s/script-%02d.ndjson' % (d, i)
+        sh([HARNESS, 'script', '--cases', cases, '--out', f, '--kinds', kinds, '--offset', str(off + seed - 1),
+            '--shard', str(shard), '--shards', str(shards), '--workdir', d + '/run'], check=True, timeout=3000)
+        out, wall = tlc('TraceScript.tla', 'SPECIFICATION SSpec\nPOSTCONDITION SDone\nCHECK_DEADLOCK FALSE\n', 'script-tr-%d' % i,
+                        env={'TRACE': f}, workers=1, timeout=3000, java_opts=JOPTS)
+        if 'SCRIPT|DONE' not in out:
+            raise ToolError('TraceScript failed on %s\n%s' % (f, out[-2000:]))
+        lines = open(f).read().split('\n')
+        return dict(file=f, bad=parse_marked(out, 'SCRIPT'), lines=lines,
+                    tpl=sum(1 for x in lines if '"ev":"tpl"' in x), val=sum(1 for x in lines if '"ev":"val"' in x))
+
+    with concurrent.futures.ThreadPoolExecutor(max_workers=6) as ex:
+        results = list(ex.map(run, range(len(plans))))
+    by_what = {}
+    for r in results:
+        for b in r['bad']:
+            by_what.setdefault(b['what'], []).append(json.loads(r['lines'][int(b['b']) - 1]))
+    violations = []
+    for what, recs in sorted(by_what.items()):
+        path = replay_file(prop, tier, seed, 'the engine deviates from Script.tla: ' + what,
+                           dict(count=len(recs), cases=recs[:25]))
+        violations.append((what, path))
+    ntpl = sum(r['tpl'] for r in results)
+    nval = sum(r['val'] for r in results)
+    sample = [json.loads(x) for x in results[0]['lines'][1:4]] + [json.loads(x) for x in results[-1]['lines'][1:4]]
+    write_evidence(prop, tier, seed, 'model_checking', dict(
+        states=states, transitions=trans, traces_validated_against_impl=ntpl + nval - sum(len(v) for v in by_what.values()),
+        samples=[sample],
+        model_checking=dict(spec='spec/Script.tla via spec/MCScript.tla', invariants=['Laws', 'ValueLaws'],
+                            cases_enumerated_by_tlc=ncases),
+        conformance=dict(template_cases=ntpl, value_cases=nval, deviations=sum(len(v) for v in by_what.values())),
+        rule='TLC enumerates every parameter string of up to %d segments over %d literal / template symbols and every value shape '
+             'of depth <= 2 over 21 scalar classes x 7 routes across the script boundary; the harness runs each case through the '
+             'real engine (created-message params / inputs, acts.transform.code results, branch conditions) and TLC compares every '
+             'observation with Fill / Through of Script.tla' % (3 if quick else 4, 20)),
+        len(violations), ['values are compared as canonical JSON text with numbers by value (1.0 = 1)',
+                          'integers above 2^53 and non-finite floats are outside the statement and not generated',
+                          'template expressions are variable references and two small JS expressions'])
+    for what, path in violations[:5]:
+        print('VIOLATION property=%s replay=%s' % (prop, path))
+    return 1 if violations else 0
+
+
 # --------------------------------------------------------------------------------------------
 
 
@@ -1042,6 +1132,8 @@ def main(argv):
             return check_c20(tier, seed)
         if prop == 'C18':
             return check_c18(tier, seed)
+        if prop == 'C14':
+            return check_c14(tier, seed)
         print('no check for', prop)
         return 2
     except ToolError as e:
